@@ -81,8 +81,8 @@ Fixpoint to_plain (t : tok) : str :=
   | Strong _ ch | Emphasis _ ch | Strikethrough ch | Image _ ch | Link _ ch
   | AutoLink _ _ ch | EscapeSequence ch | Heading _ _ ch | SetextHeading _ _ ch
   | Quote ch | Paragraph ch | List _ _ ch | ListItem _ ch | Table _ _ ch
-  | TableRow _ ch | TableCell _ ch | Document ch => all ch
-  | ThematicBreak _ => []
+  | TableRow _ ch | TableCell _ ch | Document ch | LinkRefDefBlock ch => all ch
+  | ThematicBreak _ | BlankLine | LinkRefDef _ => []
   end.
 
 Definition title_attr (o : hopts) (f : filler) (title : str) : list (str * str) :=
@@ -172,6 +172,7 @@ Fixpoint render (o : hopts) (sup : bool) (hdr : bool) (t : tok) : list item :=
   | Document ch =>
     let body := join_items [nl] (map (render o false false) ch) in
     match serialize body with [] => [] | _ => body ++ [nl] end
+  | BlankLine | LinkRefDef _ | LinkRefDefBlock _ => []   (* not in HtmlRenderer's render_map *)
   end.
 
 Definition render_html (o : hopts) (t : tok) : str := serialize (render o false false t).
